@@ -104,7 +104,8 @@ EntrySeq == EntriesFrom(1)
 \* link written with the exact name or with the wildcard over its parent
 \* (mask), optionally entered from a name outside (lead), optionally with an
 \* address or keyword entry on a member (extra), entries in table order or
-\* reversed.
+\* reversed.  Families = 1 is the reduced family of the quick tier: at most
+\* one wildcard link, one lead, one extra, one order.
 Pool == <<ac, xac, bc, xbc>>
 Inj(k) == {s \in [1..k -> 1..4] : \A i, j \in 1..k : i # j => s[i] # s[j]}
 CyclePat(n, wild) == IF wild THEN [w |-> TRUE, n |-> Tail(n)] ELSE [w |-> FALSE, n |-> n]
@@ -116,14 +117,17 @@ Leads(n1) == {<<>>, <<Cn([w |-> FALSE, n |-> yxac], n1)>>}
 Extras(s) ==
     LET n1 == Pool[s[1]]
         nk == Pool[s[Len(s)]] IN
-    {<<>>, <<Ip4([w |-> FALSE, n |-> n1], "v4a")>>, <<Ip6([w |-> FALSE, n |-> nk], "v6a")>>,
-     <<Exc([w |-> FALSE, n |-> n1], "A")>>}
+    {<<>>, <<Ip4([w |-> FALSE, n |-> n1], "v4a")>>}
+      \cup (IF Families = 2
+            THEN {<<Ip6([w |-> FALSE, n |-> nk], "v6a")>>, <<Exc([w |-> FALSE, n |-> n1], "A")>>}
+            ELSE {})
 Reverse(s) == [i \in 1..Len(s) |-> s[Len(s) + 1 - i]]
 \* The tables of one cycle shape s (an injective sequence of pool positions).
 CycleShapes == UNION {Inj(k) : k \in 1..4}
 CycleTablesOf(s) ==
     UNION {UNION {
-        LET t == ld \o CycleEntries(s, mask) \o ex IN {t, Reverse(t)}
+        LET t == ld \o CycleEntries(s, mask) \o ex IN
+        IF Families = 2 THEN {t, Reverse(t)} ELSE {t}
       : ld \in Leads(Pool[s[1]]), ex \in Extras(s)}
       : mask \in {mk \in SUBSET (1..Len(s)) : Families = 2 \/ Cardinality(mk) <= 1}}
 
@@ -141,7 +145,9 @@ LadderTail == <<Ip4([w |-> FALSE, n |-> bc], "v4b"), Ip6([w |-> FALSE, n |-> bc]
 LadderShapes == {<<r1, r2>> : r1 \in RungAns(Rungs[1]), r2 \in RungAns(Rungs[2])}
 LadderTablesOf(sh) ==
     UNION {LET t == sh[1] \o sh[2] \o r3 \o r4 IN
-           IF t = <<>> THEN {} ELSE {t \o LadderTail, LadderTail \o Reverse(t)}
+           IF t = <<>> THEN {}
+           ELSE IF Families = 2 THEN {t \o LadderTail, LadderTail \o Reverse(t)}
+           ELSE {t \o LadderTail}
            : r3 \in RungAns(Rungs[3]), r4 \in RungAns(Rungs[4])}
 
 \* --------------------------------------------------------- verdict table
@@ -353,7 +359,8 @@ AddEntry == /\ stage = "table" /\ Len(tab) < MaxLen
 \* workers share the work; the shape is parked in cs.visited.
 PickShape  == /\ Families > 0 /\ stage = "table" /\ tab = <<>>
               /\ \/ \E s \in CycleShapes : cs' = [NoChase EXCEPT !.visited = {<<"cycle", s>>}]
-                 \/ \E s \in LadderShapes : cs' = [NoChase EXCEPT !.visited = {<<"ladder", s>>}]
+                 \/ /\ Mode = "gen"     \* termination is about cycles: no ladders in "live"
+                    /\ \E s \in LadderShapes : cs' = [NoChase EXCEPT !.visited = {<<"ladder", s>>}]
               /\ stage' = "shape"
               /\ UNCHANGED <<tab, last, vt, wit, q, out>>
 PickFamily == /\ stage = "shape"
